@@ -249,7 +249,10 @@ let on_event (case : string) (cmd : string) (x : sx) =
           stat ("law_" ^ kind);
           let cut x = String.sub (show_sx x) 0 (min 400 (String.length (show_sx x))) in
           expect prop (fun () -> Printf.sprintf "%s law fails on reads: %s vs %s" kind (cut a) (cut b)) (reads = "true");
-          (* structural equality of the two results belongs to C20 *)
+          (* structural equality of the two results belongs to C20 (C18 laws are about == themselves) *)
+          if prop = "C18" then
+            expect "C18" (fun () -> Printf.sprintf "reset_remove %s law fails (==): %s vs %s" kind (cut a) (cut b)) (same = "true" || state_eq !ty a b)
+          else
           expect "C20" (fun () -> Printf.sprintf "%s: equal knowledge but the states are not ==: %s vs %s" kind (cut a) (cut b))
             (same = "true" || state_eq !ty a b)
         end
